@@ -424,6 +424,20 @@ def explore(ctx):
                 p.max_transforms = None
                 return p
             ex.explore('ifs::None', mkif, t, rnd, steps=20)
+    # IncludeIncludesPass (shipped in all.json; replaces the k-th  #include 'file'  by the file's content): the included file is named
+    # by absolute path because the pass opens it relative to the process's current directory
+    from cvise.passes.includeincludes import IncludeIncludesPass
+    incf = os.path.join(ctx.tmp, 'c11-inc.h')
+    with open(incf, 'w') as f:
+        f.write('int from_header;\n')
+    inctexts = [f"#include '{incf}'\nint a;\n#include '{ctx.tmp}/c11-missing.h'\n  #  include '{incf}'\nint b;\n", "int a;\n#include <x.h>\n"]
+    for t in inctexts:
+        for _ in range(2 if ctx.quick() else 6):
+            def mkinc():
+                p = IncludeIncludesPass(None, {})
+                p.max_transforms = None
+                return p
+            ex.explore('includeincludes::None', mkinc, t, rnd, steps=12)
     # UnIfDefPass (unifdef -s lists the symbols; cursor k = symbol k // 2 defined / undefined): several symbols, used repeatedly
     from cvise.passes.unifdef import UnIfDefPass
     untexts = ['#ifdef ALPHA\na\n#endif\n#ifndef Beta\nb\n#endif\n#if gamma\nc\n#else\nd\n#endif\n#ifdef ALPHA\ne\n#endif\n',
@@ -488,6 +502,6 @@ LEVEL_TEXT = ('Machine-checked: a write analysis over PyMini (heap semantics wit
               'its process-event notifier, except ClangBinarySearchPass.transform (slot real_num_instances of its cursor); new() sets at most '
               'two named configuration slots. Picklability, determinism and "writes only the candidate, leaves no scratch file" are observed '
               'on the real pass objects along random histories, and every field observed to change must be allowed by the Coq summary.')
-LEVEL_NOTE = ('Partial: picklability / determinism (also across processes started with different string-hash seeds; IfPass and UnIfDefPass through a unifdef stand-in) / scratch files are runtime facts checked on explored runs. Trusted: Coq kernel, the '
+LEVEL_NOTE = ('Partial: picklability / determinism (also across processes started with different string-hash seeds; IfPass and UnIfDefPass through a unifdef stand-in; IncludeIncludesPass with a real header) / scratch files are runtime facts checked on explored runs. Trusted: Coq kernel, the '
               'fail-closed translator and its library whitelist (cross-checked every run by the snapshot comparison on the real objects).')
 TECHNIQUE = 'Rocq proof (sound interprocedural write/alias analysis over a heap semantics) on IR regenerated from the Python source + deep-snapshot / pickle / double-run differential on the real pass objects'
